@@ -102,6 +102,30 @@ def run(ctx):
                 res.violations.append(vlib.Violation(
                     "the tally shown for user-defined refgroup '%s' is not the number of references satisfying its rules" % sym, inp,
                     expected=want, observed=got, cls="reserved-refgroup-name"))
+        # group symbols containing blanks next to groups named like their halves (and other separators a careless key might use)
+        for sep in (" ", ",", "/", ".x.", "  "):
+            a, b = "a", "b"
+            cfgx = [("refgroup.%s.include" % a, "refs/foo"), ("refgroup.%s.include" % b, "refs/foo/x"),
+                    ("refgroup.%s%s%s.include" % (a, sep, b), "refs/bar")]
+            refsx = [b"refs/bar/y", b"refs/foo/x", b"refs/heads/main", b"refs/foo/z"]
+            want = {a: 2, b: 1, a + sep + b: 1, "branches": 1}
+            if sep == ".x.":
+                want = {a: 2, b: 1, "a.x.b": 0, "branches": 1}       # a child of `a` (and of the implicit `a.x`): refs/bar is not in `a`
+            s, c = RC.base_scenario()
+            for n in refsx:
+                s.refs.append((n, c))
+            s.compute()
+            rc, out, err, log = eng.run_fake(s, s.enum_gitlike([c]), [], [], config=cfgx, extra_args=["--json", "--no-progress"])
+            res.case(("separator-in-symbol", sep), True)
+            inp = {"config": cfgx, "refs": [n.decode() for n in refsx]}
+            if rc != 0:
+                res.violations.append(vlib.Violation("run failed: %s" % err[:200].decode("latin1"), inp, expected="exit 0"))
+                continue
+            got = json.loads(out)["reference_groups"]
+            bad = {k: (v, got.get(k, 0)) for k, v in want.items() if got.get(k, 0) != v}
+            if bad:
+                res.violations.append(vlib.Violation("tallies of groups whose symbols contain %r differ from the number of references satisfying their rules" % sep, inp,
+                                                     expected={k: v[0] for k, v in bad.items()}, observed={k: v[1] for k, v in bad.items()}))
         # symbolic references below refs/ (refs/remotes/origin/HEAD after a clone, a moving alias of a tag) in a real
         # repository: a reference is tallied under the groups ITS OWN name satisfies, whatever it points at
         nsym = 0
